@@ -34,7 +34,7 @@ def run(ctx):
     from translate import registry
     reg = registry.generate()
     ctx.extra["registry"] = {k: (v if not isinstance(v, list) or len(v) < 80 else len(v)) for k, v in reg.items()}
-    broken = ctx.lean_obligations(["ExoModel.Props.C01Registry", "ExoModel.Props.C01", "ExoModel.Props.C01Subst", "ExoModel.Props.C01Data", "ExoModel.Props.C01Alpha", "ExoModel.Props.C01Context", "ExoModel.Props.C01Storage", "ExoModel.Props.C01DataStmt", "ExoModel.Props.C01Calls"])
+    broken = ctx.lean_obligations(["ExoModel.Props.C01Registry", "ExoModel.Props.C01", "ExoModel.Props.C01Subst", "ExoModel.Props.C01Data", "ExoModel.Props.C01Alpha", "ExoModel.Props.C01Context", "ExoModel.Props.C01Storage", "ExoModel.Props.C01DataStmt", "ExoModel.Props.C01Calls", "ExoModel.Props.C01Recompute"])
     recs = sched_run.run_stream(ctx, ["obs_sem"], nvariants=ctx.scale(1, 3),
                                 opts={"depth": ctx.scale(2, 2), "n_inputs": ctx.scale(3, 6),
                                       "depth2_procs": ctx.scale(3, 10), "depth2_attempts": ctx.scale(12, 40)})
